@@ -214,6 +214,27 @@ pub fn scripted_suite(rng: &mut Pcg64Mcg, count: usize, max_steps: u64) -> Vec<R
             req.convergence = None;
             kind = 0;
         }
+        // the step size driven to its floor by a run of rejected one-step loops while the
+        // temperature goes on cooling: later decisions belong to the temperature of their own loop
+        let stale = k % 20 == 9;
+        if stale {
+            kind = 0;
+            req.kt_start = 1.6e-5;
+            req.kt_finish = None;
+            req.kt_ratio = Some(0.5);
+            req.inner = 1;
+            req.steps = 61;
+            req.convergence = None;
+        }
+        let climb = k % 20 == 17;
+        if climb {
+            kind = 9;
+            req.kt_start = 0.;
+            req.max_step = [1.5, 0.5, 3.0][(k / 20) % 3];
+            req.steps = 100;
+            req.inner = 10;
+            req.convergence = None;
+        }
         // a temperature far below one ulp of a score of order one, offers one ulp worse on scores
         // of order 1e-3 (d/kT of a few hundredths: nearly always accepted)
         let cold = k % 20 == 13;
@@ -226,7 +247,10 @@ pub fn scripted_suite(rng: &mut Pcg64Mcg, count: usize, max_steps: u64) -> Vec<R
         }
         let (desc, brain) = if kind < 5 {
             let (s, tail) = random_script(rng, req.steps as usize);
-            let (s, tail) = if cold {
+            let (s, tail) = if stale {
+                // (length 61 selects the score scale 1: 'v' is worse by 1e-10)
+                ("U".repeat(17) + &"vB".repeat(22), 'v')
+            } else if cold {
                 // length 62 selects the score scale 1e-3 (Script::new: directives.len() % 3 == 2)
                 ((0..62).map(|i| if i % 4 == 0 { 'b' } else { 'w' }).collect::<String>(), 'w')
             } else {
@@ -246,6 +270,9 @@ pub fn scripted_suite(rng: &mut Pcg64Mcg, count: usize, max_steps: u64) -> Vec<R
             // undefined ones ('U') still never
             if cold {
                 req.kt_start = 1e-17;
+            }
+            if stale {
+                req.kt_start = 1.6e-5;
             }
             if k % 12 == 5 {
                 req.kt_start = std::f64::INFINITY;
@@ -267,7 +294,12 @@ pub fn scripted_suite(rng: &mut Pcg64Mcg, count: usize, max_steps: u64) -> Vec<R
                 Brain::Script(Script::new(&s, 'W', vals.len())),
             )
         } else {
-            let l = rng.gen_range(0, 5);
+            let mut l = rng.gen_range(0, 5);
+            // a climb into the limits with steps as large as the ranges: accepted moves onto a
+            // limit, then proposals clamped back onto it
+            if climb {
+                l = 4;
+            }
             (format!("scripted landscape={}", l), Brain::Landscape(landscape(l)))
         };
         let state = Scripted::new(&vals, &bounds, brain);
